@@ -103,7 +103,7 @@ func isConstNilV(v ssa.Value) bool {
 }
 
 func c10(c *core.Ctx, r *core.Report) {
-	r.Explain("R10.identity: PopulateGraphFromSummary passes the range key and element of Args (resp. Rets) unchanged as (src, dest) to addParamEdgeByPos (resp. (src, pos) to addReturnEdgeByPos); inside those, the forward-store owner depends only on the src position and the edge target only on the dest/pos position (SSA backward slices to the parameters). R10.order: in ResolveCallee the interface-contract lookup precedes call-graph and by-type resolution and returns early; in LoadExternalContractSummary the interface lookup precedes the function lookup; in BuildGraph contract enforcement precedes linking. R10.nobody: every call that runs the intra-procedural analysis on a summary (RunIntraProcedural, directly or through a one-line wrapper) is dominated by a branch establishing that the summary is not Constructed; contract summaries are marked Constructed by PopulateGraphFromSummary; ShouldBuildSummary excludes functions with external contracts.")
+	r.Explain("R10.identity: PopulateGraphFromSummary passes the range key and element of Args (resp. Rets) unchanged as (src, dest) to addParamEdgeByPos (resp. (src, pos) to addReturnEdgeByPos); inside those, the forward-store owner depends only on the src position and the edge target only on the dest/pos position (SSA backward slices to the parameters). R10.bound: in the by-position writers (helpers inlined with their calling context) a comparison of a listed position with len(E) uses the table the position indexes: parameter positions against Parent.Params, result positions against the result nodes, never a result position against the parameter count. R10.order: in ResolveCallee the interface-contract lookup precedes call-graph and by-type resolution and returns early; in LoadExternalContractSummary the interface lookup precedes the function lookup; in BuildGraph contract enforcement precedes linking. R10.nobody: every call that runs the intra-procedural analysis on a summary (RunIntraProcedural, directly or through a one-line wrapper) is dominated by a branch establishing that the summary is not Constructed; contract summaries are marked Constructed by PopulateGraphFromSummary; ShouldBuildSummary excludes functions with external contracts.")
 	r.NotDecided("the end-to-end effect for all specification matrices and call forms.")
 	// ---- R10.identity (AST)
 	if fd, p := c.Decl("analysis/dataflow", "SummaryGraph.PopulateGraphFromSummary"); fd != nil {
@@ -163,7 +163,8 @@ func c10(c *core.Ctx, r *core.Report) {
 	} else {
 		r.Fail("infra.anchor-unresolved", "R10.identity|PopulateGraphFromSummary", "", "not found")
 	}
-	// SSA slices in the by-position writers
+	// SSA slices in the by-position writers (helpers they call are inlined, so the rule is indifferent to how
+	// the writer is split into functions)
 	for _, w := range []struct {
 		name          string
 		srcIdx, dstIx int
@@ -175,30 +176,52 @@ func c10(c *core.Ctx, r *core.Report) {
 		}
 		r.Analysed("analysis/dataflow." + w.name)
 		n := 0
-		for _, b := range fn.Blocks {
-			for _, ins := range b.Instrs {
-				mu, ok := ins.(*ssa.MapUpdate)
-				if !ok {
-					continue
-				}
-				owner := mapOwner(mu.Map)
-				if owner == nil {
-					continue
-				}
-				// only the forward store (value is a slice of EdgeInfo)
-				if !strings.Contains(mu.Map.Type().String(), "[]") {
-					continue
-				}
-				n++
-				od, kd := paramDeps(fn, owner), paramDeps(fn, mu.Key)
-				okk := od[w.srcIdx] && !od[w.dstIx] && kd[w.dstIx] && !kd[w.srcIdx]
-				r.Check(okk, "R10.identity", fmt.Sprintf("analysis/dataflow.%s|out-write#%d", w.name, n), c.Pos(mu.Pos()),
-					"edge source is selected by the src position only and edge target by the target position only",
-					"the edge written for a specification entry does not go from the parameter at the src position to the node at the target position (positions swapped or mixed)")
-			}
+		for _, ii := range core.InlinedInstrs(c, fn, 3, func(ins ssa.Instruction) bool {
+			mu, ok := ins.(*ssa.MapUpdate)
+			// only the forward store (value is a slice of EdgeInfo)
+			return ok && mapOwner(mu.Map) != nil && strings.Contains(mu.Map.Type().String(), "[]")
+		}) {
+			mu := ii.Ins.(*ssa.MapUpdate)
+			n++
+			or, kr := ii.Slice(mapOwner(mu.Map)).Roots, ii.Slice(mu.Key).Roots
+			src, dst := fn.Params[w.srcIdx], fn.Params[w.dstIx]
+			okk := or[src] && !or[dst] && kr[dst] && !kr[src]
+			r.Check(okk, "R10.identity", fmt.Sprintf("analysis/dataflow.%s|out-write#%d", w.name, n), c.Pos(mu.Pos()),
+				"edge source is selected by the src position only and edge target by the target position only",
+				"the edge written for a specification entry does not go from the parameter at the src position to the node at the target position (positions swapped or mixed)")
 		}
 		if n == 0 {
-			r.Fail("R10.identity", "analysis/dataflow."+w.name+"|out-write", c.Pos(fn.Pos()), "no forward-store write found")
+			r.Fail("R10.identity", "analysis/dataflow."+w.name+"|out-write", c.Pos(fn.Pos()), "no forward-store write found in the writer or the helpers it calls")
+		}
+		// R10.bound: a listed position is only rejected against the table it indexes
+		nb := 0
+		for _, ic := range core.InlinedCompares(c, fn, 3) {
+			for side := 0; side < 2; side++ {
+				path, isLen := ic.LenPath(side)
+				if !isLen {
+					continue
+				}
+				roots := ic.Side(1 - side).Roots
+				for idx, what := range map[int]string{w.srcIdx: "src", w.dstIx: "target"} {
+					if !roots[fn.Params[idx]] {
+						continue
+					}
+					nb++
+					wantParams := what == "src" || strings.HasSuffix(w.name, "addParamEdgeByPos")
+					isParams := strings.HasSuffix(path, "Params")
+					key := fmt.Sprintf("analysis/dataflow.%s|%s-vs-len(%s)", w.name, what, path)
+					if wantParams == isParams {
+						r.OK("R10.bound", key, c.Pos(ic.Cmp.Pos()), "the position is bounded by the table it indexes")
+					} else {
+						r.Fail("R10.bound", key, c.Pos(ic.Cmp.Pos()), fmt.Sprintf("the %s position of %s is compared with len(%s): a %s is bounded by the %s count, so listed entries of functions with more %s are silently dropped",
+							what, w.name, path, map[bool]string{true: "parameter position", false: "result position"}[wantParams],
+							map[bool]string{true: "parameter", false: "result"}[isParams], map[bool]string{true: "parameters than results", false: "results than parameters"}[wantParams]))
+					}
+				}
+			}
+		}
+		if nb == 0 {
+			r.Fail("R10.bound", "analysis/dataflow."+w.name+"|bounds", c.Pos(fn.Pos()), "no bound check of a listed position found")
 		}
 	}
 	r.Floor("R10.identity", 4, "two loops + two writers")
